@@ -641,11 +641,22 @@ def vandalize_group(g):
             if callable(f):
                 for u in range(1, 6):
                     take(f, u)
+    # the table to_dict() hands out belongs to the caller too
+    f = getattr(g, 'to_dict', None)
+    if callable(f):
+        take(f)
     n = 0
     for x in got:
         if isinstance(x, list):
             x.append(-7)
             x.reverse()
+            n += 1
+        elif isinstance(x, dict):
+            for k_ in list(x)[::2]:
+                x[k_] = -x[k_]
+            for k_ in list(x)[1::3]:
+                del x[k_]
+            x[(99, 99)] = 1
             n += 1
     return n
 
